@@ -227,6 +227,80 @@ def run_standalone(case):
 
 
 # ---------------------------------------------------------------------------------------
+# clause rewrite: the same objects written, changed in place, written again; MidiFile built through its constructor
+# ---------------------------------------------------------------------------------------
+REWRITE_EDITS = [["none"], ["track_transpose", "3", True], ["track_transpose", "b2", False], ["track_augment"], ["bar_diminish", 0],
+                 ["note_octave_up"], ["note_from_int", 70], ["deepcopy_then", ["track_transpose", "5", True]]]
+REWRITE_PATTERNS = [0, 1, 3, 9, 12]
+
+
+def _rewrite_edit(track, edit):
+    import copy
+    how = edit[0]
+    if how == "deepcopy_then":
+        track = copy.deepcopy(track)
+        return _rewrite_edit(track, edit[1])
+    if how == "track_transpose":
+        track.transpose(edit[1], edit[2])
+    elif how == "track_augment":
+        track.augment()
+    elif how == "bar_diminish":
+        track.bars[edit[1]].diminish()
+    elif how in ("note_octave_up", "note_from_int"):
+        for b in track.bars:
+            for e in b.bar:
+                if e[2] is not None and len(e[2].notes):
+                    if how == "note_octave_up":
+                        e[2].notes[0].octave_up()
+                    else:
+                        e[2].notes[0].from_int(edit[1])
+                    return track
+    elif how != "none":
+        raise engine.HarnessError("unknown edit %r" % (edit,))
+    return track
+
+
+def run_rewrite(case):
+    """case = [pattern index, edit, route]: route 'write_Track' writes the file twice with an in-place edit in between;
+    route 'constructor' plays the track into a MidiTrack and builds the file with MidiFile([track]) (before and after playing)."""
+    S = engine.S
+    pi, edit, route = case
+    recipe = {"name": "Rw", "instrument": ["midi", 20], "bars": [Z.bar_recipe(Z.PATTERNS[pi], key="D"), Z.bar_recipe(Z.PATTERNS[(pi + 3) % 12], key="D")]}
+    track = Z.build_track(recipe)
+    with Z.midi_dir("verif-c16-") as d:
+        path = os.path.join(d, "w.mid")
+        if route == "write_Track":
+            for attempt in ("first", "again"):
+                if attempt == "again":
+                    track = _rewrite_edit(track, edit)
+                MFO.write_Track(path, track, 120)
+                data = written(path)
+                S.trans(1)
+                if data is None:
+                    S.problem("write_Track (%s) wrote no file" % attempt, "a MIDI file", None)
+                    return
+                sc = Z.score_of_track(track, recipe)
+                check_bytes("write_Track %s%s" % (attempt, "" if attempt == "first" else " after %r on the written objects" % (edit,)),
+                            data, [timelines_for(lambda tl: tl.play_track(sc), Z.values_in([sc]))], 120)
+        else:
+            track = _rewrite_edit(track, edit)
+            sc = Z.score_of_track(track, recipe)
+            for order in ("play_then_construct", "construct_then_play"):
+                mt = MidiTrack(120)
+                if order == "play_then_construct":
+                    mt.play_Track(track)
+                    mf = MFO.MidiFile([mt])
+                else:
+                    mf = MFO.MidiFile([mt])
+                    mt.play_Track(track)
+                data = mf.get_midi_data()
+                S.trans(1)
+                check_bytes("MidiFile([MidiTrack]) %s" % order, bytes(data), [timelines_for(lambda tl: tl.play_track(sc), Z.values_in([sc]))], 120)
+    S.count("rewrites")
+    S.outcome((pi, edit[0], route))
+
+
+# ---------------------------------------------------------------------------------------
 # clause runner: VLQ encoder
 # ---------------------------------------------------------------------------------------
 def run_vlq(case):
@@ -338,6 +412,7 @@ CLAUSES = {
     "compositions": run_program,
     "deviations": run_program,
     "rest_ticks": run_program,
+    "rewrite": run_rewrite,
     "standalone": run_standalone,
     "writer_bfs": run_writer_bfs,
     "vlq": run_vlq,
@@ -560,6 +635,9 @@ def explore(ctx):
         for i, (vals, mx) in enumerate(passes):
             BAR_VALUES, BAR_MAX, BAR_EARLIER = vals, mx, passes[:i]
             ctx.product("bars", [("", 0)] + [(k, v) for k in Z.SYMBOLS for v in vals], gen_bars)
+    if ctx.want("rewrite"):
+        ctx.bound("rewrite", {"patterns": REWRITE_PATTERNS, "edits": REWRITE_EDITS, "routes": ["write_Track", "constructor"]})
+        ctx.serial("rewrite", [[pi, e, r] for pi in REWRITE_PATTERNS for e in REWRITE_EDITS for r in ("write_Track", "constructor")])
     if ctx.want("rest_ticks"):
         tmax = ctx.pick(600, 1152)
         ctx.bound("rest_ticks", "rests and notes of every whole tick length 1..%d; 1-58 whole bars of rest before a note" % tmax)
